@@ -165,7 +165,14 @@ func (g *c02Gen) para(f *C02Flow) string {
 	if rapid.IntRange(0, 9).Draw(t, "ti") == 0 {
 		st += ";text-indent:15px"
 	}
-	return `<p style="` + st + `">` + g.inline(f, rapid.SampledFrom([]int{3, 8, 20, 40}).Draw(t, "plen")) + "</p>"
+	class := ""
+	if rapid.IntRange(0, 7).Draw(t, "pagecounter") == 0 {
+		// generated content that depends on the number of pages: its page is laid out again once the count is
+		// known, with a text of another width
+		class = ` class="pc"`
+		g.feat["page-counter-in-flow"] = true
+	}
+	return `<p` + class + ` style="` + st + `">` + g.inline(f, rapid.SampledFrom([]int{3, 8, 20, 40}).Draw(t, "plen")) + "</p>"
 }
 
 func (g *c02Gen) block(f *C02Flow, budget *int) string {
@@ -307,6 +314,9 @@ func c02Gen_(t *rapid.T, tier Tier) interface{} {
 	c := &C02Case{Engine: "pango"}
 	if rapid.IntRange(0, 5).Draw(t, "engine") == 0 {
 		c.Engine = "gotext"
+	}
+	if g.feat["page-counter-in-flow"] {
+		extra += ` .pc::after{content:" " counter(pages, lower-roman) "-" counter(page, lower-roman)}`
 	}
 	c.HTML = fmt.Sprintf(`<!DOCTYPE html><html><head><style>@page{size:%dpx %dpx;margin:%dpx}%s html,body{margin:0;padding:0} body{font:10px/1 Ahem} p{margin:0} td,th{padding:0;font-weight:normal} ul,ol{margin:0}</style></head><body>%s</body></html>`, pw, ph, mg, extra, body.String())
 	for _, f := range g.flows {
